@@ -137,6 +137,18 @@ fn gen_c10(seed: u64, tier: Tier) -> Scenario {
     if sc.config.kind.is_sinc() && rng.chance(0.3) {
         ops.push(Op::SetChunk { n: gen_chunk(&mut rng, sc.config.chunk) });
     }
+    // hundreds of resets in a row (a player that resets on every seek), with a masked channel in between
+    if rng.chance(0.02) {
+        if sc.config.channels >= 1 {
+            let mut mk = vec![true; sc.config.channels];
+            mk[rng.below(sc.config.channels as u64) as usize] = false;
+            ops.push(Op::SetMask { mask: Some(mk) });
+            ops.push(Op::process());
+        }
+        for _ in 0..*rng.pick(&[255usize, 256, 257, 511, 512, 300]) {
+            ops.push(Op::Reset);
+        }
+    }
     // the caller passed varying masks before the reset
     if rng.chance(0.4) {
         let pm = rng.uniform(0.05, 0.4);
@@ -636,7 +648,7 @@ fn gen_c16(seed: u64, tier: Tier) -> Scenario {
         for i in 0..n {
             let pa = *rng.pick(&[Path::IntoBuffer, Path::Wrapper, Path::VecWrapper, Path::PartialInto]);
             let pb = *rng.pick(&[Path::Wrapper, Path::IntoBuffer, Path::VecIntoBuffer, Path::PartialWrapper]);
-            ops.push(Op::Process { path: pa, valid: None, slack_in: 0, slack_out: 0, slices: false, ragged: 0 });
+            ops.push(Op::Process { path: pa, valid: None, slack_in: 0, slack_out: 0, slices: false, ragged: 0, alias: false });
             idx.push(i);
             paths.push(pb);
         }
@@ -741,7 +753,7 @@ fn flush_liveness(out: &mut Outcome, sc: &Scenario) {
                 }
                 // counts must be observable (the allocating wrappers cannot report them when every channel is masked)
                 let op = &match op {
-                    Op::Process { path, valid, slack_in, slack_out, slices, ragged } => Op::Process { path: if path.is_partial() { Path::PartialInto } else { Path::IntoBuffer }, valid: *valid, slack_in: *slack_in, slack_out: *slack_out, slices: *slices, ragged: *ragged },
+                    Op::Process { path, valid, slack_in, slack_out, slices, ragged, .. } => Op::Process { path: if path.is_partial() { Path::PartialInto } else { Path::IntoBuffer }, valid: *valid, slack_in: *slack_in, slack_out: *slack_out, slices: *slices, ragged: *ragged, alias: false },
                     o => o.clone(),
                 };
                 r.step(i, op);
@@ -766,7 +778,7 @@ fn flush_liveness(out: &mut Outcome, sc: &Scenario) {
         let max_calls = zreq as usize + (want - r.trace.total_out as f64).max(0.0) as usize + 10;
         let mut calls = 0usize;
         let consumed0 = r.trace.consumed;
-        let zeros_op = Op::Process { path: Path::PartialInto, valid: Some(0), slack_in: 0, slack_out: 0, slices: false, ragged: 0 };
+        let zeros_op = Op::Process { path: Path::PartialInto, valid: Some(0), slack_in: 0, slack_out: 0, slices: false, ragged: 0, alias: false };
         while (((r.trace.consumed - consumed0) as f64) < zreq && (r.trace.total_out as f64) < want) && calls < max_calls {
             r.step(sc.ops.len() + calls, &zeros_op);
             calls += 1;
@@ -826,7 +838,9 @@ fn gen_c11(seed: u64, tier: Tier) -> Scenario {
     }
     let per = tier_budget(tier) / (1.0 + sc.config.channels as f64 * 0.5);
     let n = ops_budget(&sc.config, per, 5, q(tier, 40, 80), &mut rng);
-    let m = OpMix::swarm(&mut rng, n);
+    let mut m = OpMix::swarm(&mut rng, n);
+    // (aliased channels would give a channel its neighbour's data, which the mono twin cannot see)
+    m.p_alias = 0.0;
     let (p, ops, t) = gen_history(&mut rng, &sc.config, &m);
     sc.profile = format!("{}+mono-twins", p);
     sc.sim_seconds = t;
@@ -1330,7 +1344,7 @@ fn gen_c06(seed: u64, tier: Tier) -> Scenario {
     let ops: Vec<Op> = ops
         .into_iter()
         .map(|o| match o {
-            Op::Process { slack_in, slack_out, slices, .. } => Op::Process { path: Path::IntoBuffer, valid: None, slack_in, slack_out, slices, ragged: 0 },
+            Op::Process { slack_in, slack_out, slices, .. } => Op::Process { path: Path::IntoBuffer, valid: None, slack_in, slack_out, slices, ragged: 0, alias: false },
             x => x,
         })
         .collect();
@@ -1385,7 +1399,8 @@ fn eval_c06(sc: &Scenario) -> Outcome {
     for s in &a.steps {
         match (&sc.ops[s.op], &s.res) {
             (Op::SetRatio { rel, ramp, relative_api }, StepRes::CtlOk) => {
-                let v = if *relative_api { (orig * *rel).max(orig / m) } else { (orig * *rel).clamp(orig / m, orig * m) };
+                let v = setratio_effective(cfg, *rel, *relative_api);
+                let _ = (orig, m);
                 target = v;
                 if !*ramp {
                     cur = v;
